@@ -251,9 +251,109 @@ theorem coll_update_eq (cfg : Cfg M K R) (h : EqRefl cfg.ops) (s : CState M R) (
           simp only [Spec.update, hv, hg, abs, hgen', ↓reduceIte, hl, hcia, Bool.not_true, Bool.false_eq_true,
             Option.getD_some]
           cases Spec.newValue cfg.ops wr (fieldUpdater cfg wr) msg (some cfg.ops.zero) cfg.ops.zero with
-          | error e => simp [failOut, abs]
+          | error e => simp [failOut]
           | ok new =>
             have := key new (if wr.idCb then [id'] else []) (if wr.createdCb then 1 else 0)
             simpa [abs] using this
-    · sorry
+    · have hg' : (icptId cfg id = "" && wr.genEmptyID) = false := by simpa using hg
+      cases hl : lookup s.items (icptId cfg id) with
+      | some it =>
+        cases hxa : wr.expectAbsent with
+        | true =>
+          rw [coll_update_err cfg s id msg wr .alreadyExists
+            { st := s, id := icptId cfg id, created := none, idCalls := [], createdCalls := 0 } hv
+            (by simp [updGet, hg', hl, hxa])]
+          simp [Spec.update, hv, hg', failOut, abs, hl, hxa]
+        | false =>
+          have key := commit_eq cfg wr s (icptId cfg id) (some it.body) none
+          have hget : updGet cfg wr { st := s, id := icptId cfg id, created := none, idCalls := [], createdCalls := 0 }
+              = (.ok (some it.body),
+                 { st := s, id := icptId cfg id, created := none, idCalls := [], createdCalls := 0 }) := by
+            simp [updGet, hg', hl, hxa]
+          rw [coll_update_ok cfg h s id msg wr (some it.body) _ hv hget hget]
+          simp only [Spec.update, hv, hg', abs, hl, hxa, Bool.false_eq_true, ↓reduceIte, Option.getD_some]
+          cases Spec.newValue cfg.ops wr (fieldUpdater cfg wr) msg (some it.body) it.body with
+          | error e => simp [failOut]
+          | ok new =>
+            have := key new [] 0
+            simpa [abs] using this
+      | none =>
+        cases hcia : wr.createIfAbsent with
+        | false =>
+          rw [coll_update_err cfg s id msg wr .notFound
+            { st := s, id := icptId cfg id, created := none, idCalls := [], createdCalls := 0 } hv
+            (by simp [updGet, hg', hl, hcia])]
+          simp [Spec.update, hv, hg', failOut, abs, hl, hcia]
+        | true =>
+          have key := commit_eq cfg wr s (icptId cfg id) (some cfg.ops.zero) (some cfg.ops.zero)
+          rw [coll_update_ok cfg h s id msg wr (some cfg.ops.zero)
+            { st := s, id := icptId cfg id, created := some cfg.ops.zero, idCalls := [],
+              createdCalls := if wr.createdCb then 1 else 0 } hv
+            (by simp [updGet, hg', hl, hcia])
+            (by simp [updGet, hl])]
+          simp only [Spec.update, hv, hg', abs, hl, hcia, Bool.not_true, Bool.false_eq_true, ↓reduceIte,
+            Option.getD_some]
+          cases Spec.newValue cfg.ops wr (fieldUpdater cfg wr) msg (some cfg.ops.zero) cfg.ops.zero with
+          | error e => simp [failOut]
+          | ok new =>
+            have := key new [] (if wr.createdCb then 1 else 0)
+            simpa [abs] using this
+
+theorem sameItem_refl {ops : MsgOps M K} (h : EqRefl ops) (o : Option (Item M)) : sameItem ops o o = true := by
+  cases o <;> simp [sameItem, h _]
+
+/-- one caller: the first attempt of `Delete` decides -/
+theorem deleteLoop_first (cfg : Cfg M K R) (h : EqRefl cfg.ops) (wr : WriteReq M K) (id : String) (fuel : Nat)
+    (s : CState M R) :
+    deleteLoop cfg wr id (fuel + 1) (lookup s.items id) s =
+      match lookup s.items id with
+      | none =>
+        if !wr.allowMissing then
+          ({ val := none, err := some .notFound, events := [], idCalls := [], createdCalls := 0 }, s)
+        else ({ val := none, err := none, events := [], idCalls := [], createdCalls := 0 }, s)
+      | some it =>
+        match (match wr.expectedCheck with | some chk => chk (some it.body) | none => none) with
+        | some e => ({ val := some it.body, err := some e, events := [], idCalls := [], createdCalls := 0 }, s)
+        | none =>
+          if (match wr.expectedValue with | some ev => !(cfg.ops.eq it.body ev) | none => false) then
+            ({ val := some it.body, err := some .failedPrecondition, events := [], idCalls := [],
+               createdCalls := 0 }, s)
+          else
+            ({ val := some it.body, err := none,
+               events := [{ id := id, time := s.clock, kind := .remove, old := some it.body, new := none }],
+               idCalls := [], createdCalls := 0 },
+             { s with clock := s.clock + cfg.tick, items := eraseItem s.items id }) := by
+  unfold deleteLoop
+  cases hl : lookup s.items id with
+  | none => rfl
+  | some it =>
+    have hsame : sameItem cfg.ops (some it) (some it) = true := sameItem_refl h _
+    simp only [hsame, nowC]
+    cases wr.expectedCheck with
+    | none => cases wr.expectedValue <;> simp
+    | some chk => cases hc : chk (some it.body) <;> cases wr.expectedValue <;> simp [hc]
+
+theorem coll_delete_eq (cfg : Cfg M K R) (h : EqRefl cfg.ops) (s : CState M R) (id : String)
+    (wr : WriteReq M K) :
+    (Coll.delete cfg s id wr).1 = (Spec.delete cfg (abs s) id wr).1 ∧
+    abs (Coll.delete cfg s id wr).2 = (Spec.delete cfg (abs s) id wr).2 := by
+  unfold Coll.delete Spec.delete
+  rw [deleteLoop_first cfg h]
+  simp only [abs]
+  cases hl : lookup s.items (icptId cfg id) with
+  | none => cases wr.allowMissing <;> simp [failOut]
+  | some it =>
+    simp only []
+    cases wr.expectedCheck with
+    | none =>
+      cases wr.expectedValue with
+      | none => simp [SState.del, lookup_eraseItem_fun]
+      | some ev => cases hq : cfg.ops.eq it.body ev <;> simp [failOut, SState.del, lookup_eraseItem_fun, hq]
+    | some chk =>
+      cases hc : chk (some it.body) with
+      | some e => simp [failOut, hc]
+      | none =>
+        cases wr.expectedValue with
+        | none => simp [SState.del, lookup_eraseItem_fun, hc]
+        | some ev => cases hq : cfg.ops.eq it.body ev <;> simp [failOut, SState.del, lookup_eraseItem_fun, hc, hq]
 end ScVerif.C01
